@@ -26,10 +26,9 @@ type vNet struct {
 // vNewNet: pool ids have a symbolic first byte, pairwise distinct; without loss of generality
 // they are numbered by increasing distance from the key (a symmetry reduction, not a restriction).
 func vNewNet(key []byte) *vNet {
+	// pool 4 with answers of 0..2 ids (tried as the thorough bound) did not finish within 25
+	// minutes: outside the claim.
 	n := &vNet{npool: 3, maxResp: 1}
-	if vThorough() {
-		n.npool, n.maxResp = 4, 2
-	}
 	for i := 0; i < n.npool; i++ {
 		n.pool[i][0] = vByte()
 		vAssume(n.pool[i][0] != 0) // the all-zero id is the library's "no node" sentinel (Closest/From)
@@ -103,7 +102,7 @@ func (n *vNet) nearestAsked(key []byte) (best p2p.PeerID, any bool) {
 	return best, any
 }
 
-// verif: unwind=12 cover=multi-contact bounds="pool of 3 (quick) / 4 (thorough) symbolic node ids numbered by distance (symmetry reduction); initial list 0..2 pool nodes; each contacted node answers with 0..1 (quick) / 0..2 (thorough) pool nodes (repeats, self-references, cycles) or fails" map_perm_max=1
+// verif: unwind=12 cover=multi-contact bounds="pool of 3 symbolic node ids numbered by distance (symmetry reduction); initial list 0..2 pool nodes; each contacted node answers with 0..1 pool nodes (repeats, self-references, cycles) or fails" map_perm_max=1
 func VH_C20_putTruthful() bool {
 	key := []byte{vByte()}
 	n := vNewNet(key)
@@ -149,7 +148,7 @@ func VH_C20_putTruthful() bool {
 	return true
 }
 
-// verif: unwind=12 cover=multi-contact bounds="pool of 3 (quick) / 4 (thorough) symbolic node ids numbered by distance (symmetry reduction); initial list 1..2 pool nodes; each contacted node answers with 0..1 (quick) / 0..2 (thorough) pool nodes or fails" map_perm_max=1
+// verif: unwind=12 cover=multi-contact bounds="pool of 3 symbolic node ids numbered by distance (symmetry reduction); initial list 1..2 pool nodes; each contacted node answers with 0..1 pool nodes or fails" map_perm_max=1
 func VH_C20_findNodeTruthful() bool {
 	var target p2p.PeerID
 	target[0] = vByte()
@@ -183,7 +182,7 @@ func VH_C20_findNodeTruthful() bool {
 	return true
 }
 
-// verif: unwind=12 cover=multi-contact bounds="pool of 3 (quick) / 4 (thorough) symbolic node ids numbered by distance (symmetry reduction); initial list 1..2 pool nodes; each contacted node answers with 0..1 (quick) / 0..2 (thorough) pool nodes, a value or none, or fails" map_perm_max=1
+// verif: unwind=12 cover=multi-contact bounds="pool of 3 symbolic node ids numbered by distance (symmetry reduction); initial list 1..2 pool nodes; each contacted node answers with 0..1 pool nodes, a value or none, or fails" map_perm_max=1
 func VH_C20_getTruthful() bool {
 	key := []byte{vByte()}
 	n := vNewNet(key)
@@ -245,7 +244,7 @@ func (n *vNet) nearestRespondedGet(key []byte) (best p2p.PeerID, any bool) {
 	return best, any
 }
 
-// verif: unwind=12 cover=multi-contact bounds="pool of 3 (quick) / 4 (thorough) symbolic node ids numbered by distance (symmetry reduction); initial list 0..2 pool nodes; each contacted node answers with 0..1 (quick) / 0..2 (thorough) pool nodes or fails" map_perm_max=1
+// verif: unwind=12 cover=multi-contact bounds="pool of 3 symbolic node ids numbered by distance (symmetry reduction); initial list 0..2 pool nodes; each contacted node answers with 0..1 pool nodes or fails" map_perm_max=1
 func VH_C20_joinBounded() bool {
 	var target p2p.PeerID
 	target[0] = vByte()
